@@ -73,7 +73,7 @@ def cases(tier, seed):
     n = 150 if tier == "quick" else 18000
     for spec in workload.standard_cases(tier, seed, n, n, opts_fn=opts, frag_share=0.35,
                                         p={"variant_prob": 0.1, "na_prob": 0.1, "waters": [0, 2, 5], "damage_prob": 0.4, "carboxyl_asym_prob": 0.4,
-                                           "alias_prob": 0.25,
+                                           "alias_prob": 0.25, "offset_prob": 0.2,
                                            "dense_prob": 0.9, "pool": None, "crowd_prob": 0.35}):
         spec["kind"] = "run"
         out.append(spec)
@@ -161,9 +161,30 @@ def check_endstate(res, spec, m, r, opts):
     tord = {id(t): k for k, t in enumerate(m["truth"])}
     nomove = opts.clean or opts.assign_only or (opts.nodebump and opts.noopt)
     any_moved = False
+    # the written file is what the user gets: an input heavy atom that did not move in the model must be written with
+    # exactly its input coordinates (three decimals)
+    written = match.written_atoms(r.bio, r.missed)
+    pq = pipeline.parse_pqr(r.pqr_text) if r.pqr_text else []
+    line_of = {id(a): ln for a, ln in zip(written, pq)} if len(pq) == len(written) else {}
+    text_bad = []
     for residue, tr in pairs:
         if tr is None:
             continue
+        if line_of:
+            inp0 = by_ord.get(tord[id(tr)], {})
+            base0 = tr["base"] if tr["kind"] == "aa" else None
+            for raw, p0 in inp0.items():
+                n0 = norm_name(base0, raw) if base0 else raw
+                a0 = residue.get_atom(n0)
+                if a0 is None or id(a0) not in line_of or n0.startswith("H") or \
+                        float(np.linalg.norm(np.array([a0.x, a0.y, a0.z]) - p0)) > 5e-4:
+                    continue
+                ln = line_of[id(a0)]
+                res.count("written_coordinates_compared")
+                if (ln["xs"], ln["ys"], ln["zs"]) != tuple("%.3f" % v for v in p0) and len(text_bad) < 3 and \
+                        all(len("%.3f" % v) <= 8 for v in p0):
+                    text_bad.append((f"{tr['resn']} {tr['resi']} {n0}", tuple("%.3f" % v for v in p0),
+                                     (ln["xs"], ln["ys"], ln["zs"])))
         inp = by_ord.get(tord[id(tr)], {})
         base = tr["base"] if tr["kind"] == "aa" else None
         fin, moved = {}, {}
@@ -216,6 +237,9 @@ def check_endstate(res, spec, m, r, opts):
         res.count("moved_side_chain_atoms", sum(1 for n, v in mv.items() if v > 5e-4 and n not in FIXED))
         for key, detail in probs[:3]:
             res.violate(key, f"{tr['resn']} {tr['resi']} (position {pos}): {detail}", **wit)
+    for who, want, got in text_bad:
+        res.violate("written/unmoved-input-atom-written-with-other-coordinates", f"{who}: input {want}, written {got}",
+                    ff=spec["ff"], opts=spec["opts"], seed=spec["seed"], w=spec["w"])
     return any_moved
 
 
